@@ -4,7 +4,8 @@ A vector is a record
   kinds   all | typedef | const | enum | struct | union | exception | service      definition kinds present
   shapes  index of the type-shape batch (lib/universe.py + spec/IDL/Shapes.tla)
   reqdef  mixed | required | optional | default | optional+value | default+value      requiredness x default value
-  inc     single | chain3 | diamond | samens | samebase                               include graph
+  inc     single | chain3 | diamond | samens | samebase | pkg-<name>                  include graph (pkg-<name>: no go
+          namespaces, the included file is <name>.thrift, so its Go package is called <name>)
   tdchain 0..3                                                                        typedef chain length (crossing files when inc != single)
   ids     pos | neg | implicit | mixed                                                field ids
   svc     mixed | void | value | oneway                                               function shapes
@@ -117,6 +118,13 @@ class World:
             self._file("other.thrift", ns + ".y.common", ["y/common.thrift"])
             self._file("y/common.thrift", ns + ".w.common")
             self.home, self.mid = "x/common.thrift", None
+        elif inc.startswith("pkg-"):
+            # no go namespace at all: the packages are named after the files; the included file is called <name>.thrift
+            inc_name = inc[4:] + ".thrift"
+            self.nsmode = "none"
+            self._file("a.thrift", ns + ".app", [inc_name])
+            self._file(inc_name, ns + ".inc")
+            self.home, self.mid = inc_name, None
         else:
             raise ValueError(inc)
         self.main = self.files["a.thrift"]
